@@ -453,17 +453,6 @@ fn oracle_suppressed(p: &Prog, d: &D) -> Option<String> {
 
 /// class of an oracle failure, computed from the input only (what known findings match on)
 fn classify(p: &Prog) -> Option<&'static str> {
-    let last = p.text.rsplit(['\n', '\r']).next().unwrap_or("");
-    if last.trim_start() == "---@cast" {
-        return Some("caret-at-eof");
-    }
-    // a disable-next-line comment with no line after it (or only the empty last line) registers nothing
-    let starts = line_starts(&p.text);
-    let nlines = starts.len() as u32;
-    let last_empty = *starts.last().unwrap_or(&0) == p.text.len();
-    if p.tags.iter().any(|t| t.kind == 'n' && (t.last_line + 1 >= nlines || (t.last_line + 2 == nlines && last_empty))) {
-        return Some("next-line-at-eof");
-    }
     if p.tags.iter().any(|t| t.kind == 'd' && !p.blocks[t.block].has_stmt) {
         return Some("comment-only-block");
     }
@@ -555,7 +544,7 @@ pub fn run(args: &Args, report: &mut Report) {
         }
         // assumptions of the theorem, validated on the real tree (TagOK)
         for t in &tags {
-            let inside = t.block.map(|((a, b), _)| a <= t.comment.0 && t.comment.1 <= b).unwrap_or(true);
+            let inside = t.block.map(|((a, b), _)| a <= t.comment.0 && t.comment.1 <= b && b <= prog.text.len()).unwrap_or(true);
             if !(t.comment.0 < t.comment.1 && t.comment.1 <= prog.text.len() && inside) {
                 ok = false;
                 report.mismatch(json!({"input": {"text_hex": hex(&prog.text), "gen": tags_json(&prog)},
@@ -623,8 +612,14 @@ pub fn run(args: &Args, report: &mut Report) {
             } else {
                 "multiplicity differs".to_string()
             };
-            report.oracle_failure(json!({"input": input, "what": what, "class": classify(&c.prog),
-                "wrongly_hidden": format!("{hidden:?}"), "wrongly_shown": format!("{shown:?}")}));
+            // at most 8 listed per class, so that a rare unlisted class is not crowded out of the report
+            let class = classify(&c.prog);
+            let key = format!("oracle_class:{}", class.unwrap_or("unclassified"));
+            report.count(&key);
+            if report.distribution[&key] <= 8 {
+                report.oracle_failure(json!({"input": input, "what": what, "class": class,
+                    "wrongly_hidden": format!("{hidden:?}"), "wrongly_shown": format!("{shown:?}")}));
+            }
         }
         report.add("suppressed_by_oracle", (c.raw.len() - expected.len()) as u64);
         report.sample(json!({"text": c.prog.text, "raw": c.raw.len(), "reported": c.actual.len()}));
@@ -723,6 +718,22 @@ fn corpus() -> Vec<Prog> {
             "do\n  ---@diagnostic disable: undefined-global\n  baz()\nend bar()\nfoo()",
             vec![GTag { kind: 'd', codes: ug(), start: (1, 2), last_line: 1, block: 1 }],
             vec![top(), GBlock { open: (0, 2), close: Some((3, 0)), top: false, has_stmt: true }],
+        ),
+        // the end-of-file position belongs to the last line (fix 9bcb386)
+        mk(
+            "local u1 = 1\n---@diagnostic disable-next-line\n---@cast",
+            vec![GTag { kind: 'n', codes: None, start: (1, 0), last_line: 2, block: 0 }],
+            vec![top()],
+        ),
+        mk(
+            "---@diagnostic disable-next-line: doc-syntax-error\n---@cast\n",
+            vec![GTag { kind: 'n', codes: Some(vec!["doc-syntax-error".to_string()]), start: (0, 0), last_line: 1, block: 0 }],
+            vec![top()],
+        ),
+        mk(
+            "foo() ---@diagnostic disable-line: doc-syntax-error\n---@cast",
+            vec![GTag { kind: 'l', codes: Some(vec!["doc-syntax-error".to_string()]), start: (0, 6), last_line: 0, block: 0 }],
+            vec![top()],
         ),
         mk(
             "---@diagnostic disable: undefined-global\nfoo()\n---@diagnostic enable: undefined-global\n",
